@@ -1070,3 +1070,28 @@ Qed.
 Lemma to_entry_spec : forall r, e_grade (to_entry r) = sr_grade r /\ e_ok (to_entry r) = grade_to_ok (sr_grade r) /\
   e_msg (to_entry r) = format_msg (sr_msg r).
 Proof. intro r. repeat split. Qed.
+
+(* ------------------------------------------------------------------------------------------------
+   answers given as a string (answers='a, b' or inferred from the expect argument)
+   ------------------------------------------------------------------------------------------------ *)
+Theorem infer_flat_spec : forall c s,
+  (c_missing_error c = true /\ (exists it, In it (split (c_delim c) s) /\ is_blank it = true) /\ infer_flat c s = inr ErrConfig)
+  \/ ((c_missing_error c = false \/ Forall (fun it => is_blank it = false) (split (c_delim c) s))
+      /\ infer_flat c s = inl [mkAnswer [split (c_delim c) s] 1 []]).
+Proof.
+  intros c s. unfold infer_flat. destruct (c_missing_error c) eqn:M; simpl andb.
+  - destruct (existsb is_blank (split (c_delim c) s)) eqn:E.
+    + left. apply existsb_exists in E. auto.
+    + right. split; [|reflexivity]. right. apply Forall_forall. intros it Hit.
+      destruct (is_blank it) eqn:B; [|reflexivity].
+      assert (existsb is_blank (split (c_delim c) s) = true) by (apply existsb_exists; exists it; auto). congruence.
+  - right. split; [left; reflexivity | reflexivity].
+Qed.
+
+(* the inferred configuration has exactly one list: the pieces of the string, at full credit, without message; it is never empty *)
+Theorem infer_flat_alts : forall c s answers, infer_flat c s = inl answers ->
+  all_alts answers = [mkAlt (split (c_delim c) s) 1 []] /\ split (c_delim c) s <> [].
+Proof.
+  intros c s answers H. destruct (infer_flat_spec c s) as [(_ & _ & E) | (_ & E)]; rewrite E in H; [discriminate|].
+  inversion H; subst. split; [reflexivity | apply split_nonempty].
+Qed.
